@@ -419,7 +419,7 @@ def add_history(case, rng):
     grammar or a grammar with the same literals, with the ignore_case / autokwd configuration varied"""
     def entry(r):
         cfg = dict(case["cfg"])
-        kind = r.weighted([("flip_ic", 5), ("flip_kwd", 2), ("both", 2), ("same", 1)])
+        kind = r.weighted([("flip_ic", 6), ("flip_kwd", 2), ("both", 1), ("same", 1)])
         if kind in ("flip_ic", "both"):
             cfg["ignore_case"] = not cfg.get("ignore_case")
         if kind in ("flip_kwd", "both"):
@@ -643,11 +643,13 @@ def observe_side(entry, case, tmp, keep):
 _PRISTINE = None
 
 
+_PLAIN = (int, bool, str, float, type(None), tuple, frozenset, bytes)
+
+
 def _state_cells():
-    """(owner name, attribute, container) for every module-level and class-level dict / list / set of the textX and
-    Arpeggio modules"""
+    """(owner, owner name, attribute, value) for every module-level and class-level attribute of the textX and
+    Arpeggio modules that holds plain data (dict / list / set, numbers, strings, tuples, None) or a functools cache"""
     import sys as _sys
-    import types
 
     out = []
     for mname, mod in sorted(_sys.modules.items()):
@@ -655,22 +657,23 @@ def _state_cells():
                                or mname.startswith("arpeggio.")):
             continue
         for k, v in list(vars(mod).items()):
-            if type(v) in (dict, list, set) and not k.startswith("__"):
-                out.append((mname, k, v))
+            if k.startswith("__"):
+                continue
+            if type(v) in (dict, list, set) or type(v) in _PLAIN or (
+                    hasattr(v, "cache_clear") and getattr(v, "__module__", None) == mname):
+                out.append((mod, mname, k, v))
             elif isinstance(v, type) and getattr(v, "__module__", None) == mname:
                 for ck, cv in list(vars(v).items()):
-                    if type(cv) in (dict, list, set) and not ck.startswith("__"):
-                        out.append((f"{mname}.{v.__name__}", ck, cv))
-            elif isinstance(v, types.FunctionType) or hasattr(v, "cache_clear"):
-                if hasattr(v, "cache_clear") and getattr(v, "__module__", None) == mname:
-                    out.append((mname, k, v))
+                    if not ck.startswith("__") and (type(cv) in (dict, list, set) or type(cv) in _PLAIN):
+                        out.append((v, f"{mname}.{v.__name__}", ck, cv))
     return out
 
 
 def reset_process_state():
     """Bring the process-wide state that survives a meta-model back to what it was when the code under test had
     just been imported: the regex cache of `re`, every module-level / class-level container of the textX and Arpeggio
-    modules (contents restored in place; containers created later are left alone), functools caches.  A case is then observed after exactly the history it lists itself: what earlier
+    modules (contents restored in place; plain values rebound; attributes created later are left alone), functools
+    caches.  A case is then observed after exactly the history it lists itself: what earlier
     cases of the same worker process left behind neither masks nor fakes a failure, and a replay (fresh process)
     sees what the run saw.  (`VERIF_C20_FORK=1` runs every case in a forked child instead - the same guarantee for
     any kind of state, at a few hundred milliseconds per case.)"""
@@ -699,19 +702,23 @@ def reset_process_state():
     cells = _state_cells()
     if _PRISTINE is None:
         _PRISTINE = {}
-        for owner, k, v in cells:
+        for owner, oname, k, v in cells:
             if not hasattr(v, "cache_clear"):
-                _PRISTINE[(owner, k)] = (v, _copy.copy(v))
+                _PRISTINE[(oname, k)] = (v, _copy.copy(v))
         return
-    for owner, k, v in cells:
+    for owner, oname, k, v in cells:
         if hasattr(v, "cache_clear"):
             v.cache_clear()
             continue
-        ref = _PRISTINE.get((owner, k))
-        if ref is None or ref[0] is not v:
+        ref = _PRISTINE.get((oname, k))
+        if ref is None:
             continue
         saved = ref[1]
-        if v == saved:
+        if type(saved) in _PLAIN:
+            if type(v) is not type(saved) or v != saved:
+                setattr(owner, k, saved)
+            continue
+        if ref[0] is not v or v == saved:
             continue
         if type(v) is list:
             v[:] = saved
@@ -992,6 +999,7 @@ class Prop(Check):
         "Peg.Case.C20_tok_str_exact",
         "Peg.Case.C20_tok",
         "Peg.Case.C20_compile_ignore_case",
+        "Peg.Case.C20_compile_history",
         "Peg.Case.C20_partial",
         "Peg.Case.C20_partial_tree",
         "Peg.Case.C20_values_keep_case",
@@ -1004,17 +1012,30 @@ class Prop(Check):
     THOROUGH_CASES = 5000
     CASE_TIMEOUT = 90
     RULE = ("generated grammars (random: common/abstract/match rules, all operators, separators, eolterm, predicates, "
-            "suppression, rule modifiers, Comment rule, mixed-case keywords, regex literals with letters; targeted: "
-            "keyword/regex/separator/ID templates; definitions + references through ID) compiled with ignore_case=True x "
-            "autokwd / skipws / ws / memoization options x derived and mutated texts x up to 3 (quick) / 6 (thorough) case variants of "
-            "the literal-matched characters + 1 variant of arbitrary characters; non-trivial = an accepted text with at "
-            "least one variant differing in a character matched by a string or regex literal of the grammar")
-    MODELLED = ("hand-modelled: StrMatch._parse with ignore_case, Terminal.value, the flag choice of visit_str_match / "
-                "autokwd branch / visit_re_match (Peg/Case.lean) on top of the Arpeggio mirror (Peg/Arp.lean); tie X: mirror "
-                "outcome and terminal values vs real parser for every text and variant, Lean string rows vs real "
-                "StrMatch._parse at every position, compileLit vs the real Match objects, prediction of C20_partial vs "
-                "real outcomes; regex matching is an input table measured on the real `re` objects; model construction "
-                "from the parse tree is not modelled (observed by the oracle on the real code)")
+            "suppression, rule modifiers, Comment rule; string literals from a wide vocabulary: mixed-case keywords, random "
+            "words, non keyword-like spellings with punctuation / quotes / blanks / backslashes / leading digits, word "
+            "separators, written with either quote and with escape sequences (\\\\ \\' \\\" \\n \\t \\xNN \\uNNNN "
+            "\\UNNNNNNNN octal); regex literals with letters, escaped slashes, backslashes; targeted: keyword/regex/"
+            "separator/ID templates; definitions + references through ID; the templates also as multi-file grammars "
+            "(import)) compiled with ignore_case=True x autokwd / skipws / ws / memoization options x HISTORIES (28 % of the "
+            "cases: 1-2 meta-models constructed and used earlier in the same process and / or one constructed after the "
+            "meta-model under test and before its texts are parsed - the same grammar or another grammar with the same "
+            "literals, with ignore_case and / or autokwd flipped; every case starts from the process state of a fresh "
+            "import) x derived and mutated texts x up to 3 (quick) / 6 (thorough) case variants of the literal-matched "
+            "characters + 1 variant of arbitrary characters; non-trivial = an accepted text with at least one variant "
+            "differing in a character matched by a string or regex literal of the grammar")
+    MODELLED = ("hand-modelled: StrMatch._parse with ignore_case, Terminal.value (grammar literal for StrMatch and "
+                "KeywordMatch, matched text for RegExMatch), the class / flag choice of visit_str_match / autokwd branch / "
+                "visit_re_match and RegExMatch.compile through the process-wide regex cache, threaded through the case's "
+                "history of meta-model constructions (buildMM / buildAll, Peg/Case.lean) on top of the Arpeggio mirror "
+                "(Peg/Arp.lean); tie X: mirror outcome and terminal values vs real parser for every text and variant, Lean "
+                "string rows vs real StrMatch._parse at every position, buildMM vs the real Match objects (kind, pattern, "
+                "flags of the compiled regex object) of the meta-model under test and of every meta-model of its history, "
+                "prediction of C20_partial vs real outcomes; regex matching is an input table measured on the real `re` "
+                "objects; unescaping of string literals (decode_escapes) is not modelled (the generator knows the decoded "
+                "literal; tie through the Match objects and the parses); model construction from the parse tree is not "
+                "modelled (observed by the oracle on the real code); parser models the mirror cannot take are still parsed "
+                "and judged by the direct oracle (evidence: no_mirror_cases)")
     ASSUMPTIONS = [
         "re.IGNORECASE: a regex token compiled with the flag (and the case-closed base-type regexes ID, INT, FLOAT, "
         "STRICTFLOAT, STRING) matches the same lengths on texts equal up to letter case (hypothesis RxFoldInv of "
@@ -1028,17 +1049,21 @@ class Prop(Check):
     def gen(self, rng, n, tier):
         for i in range(n):
             r = rng.fork(i)
-            stream = r.weighted([("random", 6), ("simple", 3), ("link", 1)])
+            # a third of the cases have a history of other meta-models in the same process; those lean towards the
+            # high-yield templates and towards autokwd (keyword literals are the ones compiled through shared state)
+            hist = r.chance(0.33)
+            stream = r.weighted([("random", 3), ("simple", 4), ("link", 2)] if hist else
+                                [("random", 6), ("simple", 3), ("link", 1)])
             cfg = dict(r.choice(CFGS))
             cfg["ignore_case"] = True if r.chance(0.93) else False
-            if r.chance(0.35):
+            if r.chance(0.55 if hist else 0.35):
                 cfg["autokwd"] = True
             if r.chance(0.25):
                 cfg["memoization"] = True
-            yield self.make_case(r, stream, cfg, tier)
+            yield self.make_case(r, stream, cfg, tier, p_history=1.0 if hist else 0.0)
 
     @staticmethod
-    def make_case(r, stream, cfg, tier, p_history=0.25, p_files=0.3):
+    def make_case(r, stream, cfg, tier, p_history=0.3, p_files=0.3):
         if stream == "random":
             g = relit(G.GrammarGen(r, links=False).grammar(), r)
             case = {"grammar": render_grammar20(g, r.fork("render")), "cfg": cfg, "texts": sentences20(g, r, 2, 1),
@@ -1070,14 +1095,16 @@ class Prop(Check):
         import shutil
         import tempfile
 
-        tmp = tempfile.mkdtemp(prefix="c20-", dir="/tmp")
+        # grammar files of multi-file cases live in a temp dir outside the trees (only created when needed)
+        tmp = tempfile.mkdtemp(prefix="c20-", dir="/tmp") if case.get("files") else None
         try:
             return self._impl(case, tmp)
         except _Limit:
             # a nested limit fired outside its guarded region (heavy machine load): nothing observed, nothing claimed
             return {"aborted": True, "late_timeout": True}
         finally:
-            shutil.rmtree(tmp, ignore_errors=True)
+            if tmp:
+                shutil.rmtree(tmp, ignore_errors=True)
 
     def _impl(self, case, tmp):
         use_repo()
@@ -1156,7 +1183,8 @@ class Prop(Check):
                     left = []
                     for d in fails:
                         y2 = run_one(mm, nodes, objs, d["text"], mirror)
-                        f = pair_failure(x2, y2, textual) if "ok" in x2["load"] else "original rejected"
+                        # (an original that BOOL-with-IGNORECASE rejects leaves no accepted text to vary: gone as well)
+                        f = pair_failure(x2, y2, textual) if "ok" in x2["load"] else None
                         if f:
                             left.append(f)
                     grp["bool_ci_left"] = left
